@@ -10,9 +10,15 @@ git -C /repo worktree remove --force $WT 2>/dev/null
 git -C /repo worktree add -q --detach $WT HEAD || exit 1
 HEADC=$(git -C /repo rev-parse --short HEAD)
 LOG=/tmp/wt/confirm.log; : >> $LOG
+# round 3: SRC_GLOB='/tmp/mut3/C*/OUT/MUT*' OFFSET=auto
 # SRC_GLOB selects the sub-agent directories (round 2: /tmp/wt/R2C*/MUT*), OFFSET renumbers (round 2: 2)
 for d in ${SRC_GLOB:-/tmp/wt/C*/MUT*}; do
-  prop=$(basename $(dirname $d)); prop=${prop#R2}; k=$(basename $d); n=${k#MUT}; id="${prop}_MUT$((n+${OFFSET:-0}))"
+  prop=$(basename $(dirname $d)); [ "$prop" = OUT ] && prop=$(basename $(dirname $(dirname $d))); prop=${prop#R2}; k=$(basename $d); n=${k#MUT}
+  if [ "${OFFSET:-0}" = auto ]; then
+    # next free number for this property (round 3 onwards)
+    last=$(ls /verif/seeded 2>/dev/null | grep "^${prop}_MUT" | sed "s/^${prop}_MUT//" | sort -n | tail -1); last=${last:-0}
+    [ "$n" = 1 ] && eval "base_$prop=$last"; eval "b=\${base_$prop:-$last}"; id="${prop}_MUT$((b+n))"
+  else id="${prop}_MUT$((n+${OFFSET:-0}))"; fi
   [ -n "${ONLY:-}" ] && [[ ! " $ONLY " =~ " $prop " ]] && continue
   demo_path=$(grep -ohE "(lexpr|serde-lexpr)/tests/[A-Za-z0-9_]+\.rs" $d/README.md | head -1)
   [ -z "$demo_path" ] && demo_path="lexpr/tests/demo_$(echo $id | tr 'A-Z' 'a-z').rs"
